@@ -114,6 +114,28 @@ func (m *ServerModel) handlerInfo(fi *FuncInfo) *HandlerInfo {
 		h.LookupSites = append(h.LookupSites, call)
 		if id, ok := as.Lhs[0].(*ast.Ident); ok {
 			field := res.str(call.Args[0])
+			// a helper that is handed the fid instead of the message: the field is the one its
+			// callers pass (clunkHandleXattr(cs, t.fid))
+			if pobj, isParam := objOf(info, call.Args[0]).(*types.Var); isParam {
+				if idx := paramIndex(fi, info, pobj); idx >= 0 {
+					passed := ""
+					for _, u := range m.usesOf(fi) {
+						if u.Call == nil || idx >= len(u.Call.Args) {
+							passed = ""
+							break
+						}
+						a := m.L.str(u.Call.Args[idx])
+						if passed != "" && passed != a {
+							passed = ""
+							break
+						}
+						passed = a
+					}
+					if passed != "" {
+						field = passed
+					}
+				}
+			}
 			if i := strings.LastIndex(field, "."); i >= 0 {
 				field = field[i+1:]
 			}
